@@ -8,7 +8,7 @@ import warnings
 
 import numpy as np
 
-from vmon import core, gen
+from vmon import core, gen, contracts
 from vmon import refmodel as rm
 
 ANCHORS = ['evo/core/lie_algebra.py']
@@ -357,6 +357,19 @@ def k_member(run, case):
         D[i, i] = 1 + d
         run.check(not L.is_sim3(rm.se3(R @ D, t)), "is_sim3 rejects anisotropic scale", case,
                   "is_sim3 accepted an anisotropically scaled block (%g)" % d, R=R)
+        # collapsed blocks (an axis scaled to exactly zero, two equal columns, all zeros): their
+        # determinant is exactly 0 - still an answer (False), not an arithmetic error
+        Z = np.eye(3)
+        Z[i, i] = 0.0
+        C2 = R.copy()
+        C2[:, j] = C2[:, i]
+        for blk in (R @ Z, Z @ R, C2, np.zeros((3, 3)))[int(rng.integers(4))::4]:
+            out = contracts.outcome_of(L.is_sim3, rm.se3(blk, t))
+            run.check(out[0] == "ok" and not out[1], "is_sim3 rejects a collapsed block", case,
+                      "is_sim3 on a block of determinant 0 %s" %
+                      ("raised %r" % (out[1], ) if out[0] == "exc" else "returned True"), blk=blk)
+            run.check(not L.is_se3(rm.se3(blk, t)) and not L.is_so3(blk), "is_se3 / is_so3 reject a collapsed block", case,
+                      "is_se3 / is_so3 accepted a block of determinant 0", blk=blk)
         # wrong bottom rows: any non-zero perturbation
         Pb = P.copy()
         col = rng.integers(4)
